@@ -386,6 +386,28 @@ func init() {
 		m.store(r.loc, m.convert(types.Typ[types.Float64], r.t, a[0]))
 		return nil
 	})
+	V("OverflowInt", func(m *Machine, r *rval, a []value) value {
+		w := widthOf(r.t)
+		x := a[0].(Scalar)
+		if w >= 64 {
+			return boolS(false)
+		}
+		if x.sym == nil {
+			return boolS(sx(x.c&mask(w), w) != int64(x.c))
+		}
+		return fromTerm(tNot(tEq(tSext(tExtract(w-1, 0, x.sym), 64), x.sym)))
+	})
+	V("OverflowUint", func(m *Machine, r *rval, a []value) value {
+		w := widthOf(r.t)
+		x := a[0].(Scalar)
+		if w >= 64 {
+			return boolS(false)
+		}
+		if x.sym == nil {
+			return boolS(x.c&mask(w) != x.c)
+		}
+		return fromTerm(tNot(tEq(tZext(tExtract(w-1, 0, x.sym), 64), x.sym)))
+	})
 	V("SetBool", func(m *Machine, r *rval, a []value) value { m.store(r.loc, a[0]); return nil })
 	V("SetString", func(m *Machine, r *rval, a []value) value { m.store(r.loc, a[0]); return nil })
 	V("SetBytes", func(m *Machine, r *rval, a []value) value { m.store(r.loc, a[0]); return nil })
